@@ -64,6 +64,17 @@ def main() -> int:
         v["components"]["schemas"] = {}
         v["paths"] = {"/only": {"get": {"operationId": "only_op", "tags": ["solo"], "responses": {"200": {"description": "ok"}}}}}
         fam.append(v)
+        # two members that differ only in defaults which are equal as Python values (True == 1 == 1.0, False == 0) but not as JSON values of the declared
+        # type: state carried from one command to the next inside one process (a cache keyed by value) would make the later tree depend on the earlier document
+        for valid in (False, True):
+            v = copy.deepcopy(base)
+            dv = (lambda a_, b_: a_ if valid else b_)
+            v["components"]["schemas"]["DefaultedZq"] = {"type": "object", "properties": {
+                "ratio": {"type": "number", "default": dv(1.0, True)}, "count": {"type": "integer", "default": dv(1, True)}, "flag": {"type": "boolean", "default": dv(True, 1)},
+                "zero": {"type": "number", "default": dv(0.0, False)}, "none": {"type": "integer", "default": dv(0, False)}, "label": {"type": "string", "default": "1"}}}
+            v["paths"]["/defaulted"] = {"get": {"operationId": "get_defaulted", "tags": ["pets"], "parameters": [{"name": "ratio", "in": "query", "schema": {"type": "number", "default": dv(1.0, True)}}],
+                                                "responses": {"200": {"description": "ok", "content": {"application/json": {"schema": {"$ref": "#/components/schemas/DefaultedZq"}}}}}}}
+            fam.append(v)
         families.append(fam)
     # ---- fresh trees per (family, doc, meta)
     fresh_jobs, fkey = [], {}
@@ -99,6 +110,18 @@ def main() -> int:
                 st["cfg"] = dict(st.get("cfg") or {}, docstrings_on_attributes=True)
             if not titled:
                 st["outdir_rel"] = "target/out"
+            if si == 0 and not titled and h % 4 == 2:
+                # the output location exists before the first command: empty, holding only dot entries, or holding an ordinary user file
+                pre = ["empty", "dot_files", "dot_dir", "ordinary"][(h // 4) % 4]
+                st["_pre"] = pre
+                if pre == "empty":
+                    st["user_dirs"] = ["target/out"]
+                elif pre == "dot_files":
+                    st["user_files"] = {"target/out/.gitignore": "# my ignores\n*.secret\n", "target/out/.env": "TOKEN=zq\n"}
+                elif pre == "dot_dir":
+                    st["user_files"] = {"target/out/.git/HEAD": "ref: refs/heads/main\n", "target/out/.git/config": "[core]\n"}
+                else:
+                    st["user_files"] = {"target/out/USER_NOTES_0.md": "mine", "target/out/.gitignore": "# my ignores\n"}
             if si >= 1 and r.random() < 0.4:
                 base = "target/out" if not titled else None
                 if base:
@@ -167,7 +190,9 @@ def main() -> int:
             for pth in set(before) | set(after):
                 if not (pth == rel_root or pth.startswith(rel_root + "/")) and before.get(pth) != after.get(pth):
                     vd.violation(f"outside_changed:{kind}", f"{pth} outside the output directory changed ({before.get(pth)} -> {after.get(pth)})", w)
-            existed = any(p.startswith(rel_root + "/") for p in before)
+            existed = any(p.startswith(rel_root + "/") for p in before) or bool(obs.get("outdir_existed"))
+            if st.get("_pre"):
+                ev.count("first_command_on_preexisting_location:" + st["_pre"])
             errored = (obs.get("cli_exit") not in (None, 0)) if st.get("via") in ("cli", "subprocess") else any(d["level"] == "ERROR" for d in obs.get("diags") or [])
             inner_before = {p[len(rel_root) + 1:]: h for p, h in before.items() if p.startswith(rel_root + "/")}
             inner_after = {p[len(rel_root) + 1:]: h for p, h in after.items() if p.startswith(rel_root + "/")}
@@ -186,7 +211,7 @@ def main() -> int:
             if want is None or errored:
                 continue
             ev.count("convergence_checked")
-            user = {p: h for p, h in inner_before.items() if ("USER_NOTES" in p or "my_extras/" in p)}
+            user = {p: h for p, h in inner_before.items() if ("USER_NOTES" in p or "my_extras/" in p or p in (".env", ".git/HEAD", ".git/config") or (p == ".gitignore" and p not in want and st.get("_pre")) or (p == ".gitignore" and p not in want and any(s_.get("_pre") for s_ in steps[:si])))}
             for p, h in user.items():
                 if inner_after.get(p) != h and not ((st.get("cfg") or {}).get("post_hooks") and "/" not in p and p.endswith(".md")):
                     vd.violation("user_file_touched", f"user file {p} changed or disappeared on overwrite", w)
